@@ -142,3 +142,85 @@ def canon_block_model(o):
     if m[0] == 1:
         return ["exc", EXC.get(m[1], str(m[1]))]
     return ["outoffuel"]
+
+
+# ---------------------------------------------------------------- whole pipeline
+
+def inline_cfg(md):
+    return [chain_names(md.inline.ruler, ""), chain_names(md.inline.ruler2, ""), int(md.options["maxNesting"]),
+            bool(md.options.get("html")), bool(md.options.get("linkify")), bool(md.options.get("store_labels", False))]
+
+
+def hl_code(md):
+    h = md.options.get("highlight")
+    return getattr(h, "code", 0) if h else 0
+
+
+def quotes_list(md):
+    q = md.options.get("quotes", "“”‘’")
+    return list(q) if isinstance(q, str) else list(q)
+
+
+def pipe_cfg(md):
+    return [chain_names(md.core.ruler, ""), block_cfg(md), inline_cfg(md), bool(md.options.get("typographer")),
+            quotes_list(md), bool(md.options.get("linkify")),
+            [bool(md.options.get("xhtmlOut")), bool(md.options.get("breaks")), md.options.get("langPrefix", "language-"), hl_code(md)]]
+
+
+class PipeRecorder(Recorder):
+    """also records normalizeLinkText"""
+
+    def __enter__(self):
+        super().__enter__()
+        import markdown_it.common.normalize_url as nu
+        self.linktext = {}
+        self._nlt = nu.normalizeLinkText
+        rec = self
+
+        def nlt(url):
+            out = rec._nlt(url)
+            rec.linktext[url] = out
+            return out
+        nu.normalizeLinkText = nlt
+        return self
+
+    def __exit__(self, *a):
+        import markdown_it.common.normalize_url as nu
+        nu.normalizeLinkText = self._nlt
+        super().__exit__(*a)
+
+    def tables(self):
+        return super().tables() + [[[k, v] for k, v in self.linktext.items()]]
+
+
+API = {"parse": 0, "render": 1, "parseInline": 2, "renderInline": 3}
+
+
+def run_pipe_impl(md, api, src, env=None):
+    env = {} if env is None else env
+    env_in = enc_env(env)
+    cfg = pipe_cfg(md)
+    with PipeRecorder(md) as rec:
+        try:
+            r = guarded(getattr(md, api), src, env)
+            if api.startswith("parse"):
+                exp = ["ok", [tok.canon_py_token(t) for t in r], canon_env_py(env)]
+            else:
+                exp = ["ok", r, canon_env_py(env)]
+        except Exception as e:  # noqa: BLE001
+            exp = ["exc", type(e).__name__]
+    line = sx([40, [API[api], cfg, src, env_in] + rec.tables()])
+    return line, exp
+
+
+def canon_pipe_model(o, api):
+    m = unsx(o)
+    if not m:
+        return ["bad", o[:200]]
+    if m[0] == 0:
+        if api.startswith("parse"):
+            return ["ok", [tok.canon_model_token(x) for x in m[1][0]], canon_env_model(m[1][1])]
+        return ["ok", tok.s_of(m[1][0]), canon_env_model(m[1][1])]
+    if m[0] == 1:
+        return ["exc", EXC.get(m[1], str(m[1]))]
+    return ["outoffuel"]
